@@ -427,7 +427,8 @@ func init() {
 			type giant struct {
 				s, d, C, P int
 			}
-			giants := []giant{{dyn.Float32, dyn.Float32, 2, 1<<20 + 1000}, {dyn.Int16, dyn.Float64, 2, 1<<20 + 1000}, {dyn.Int8, dyn.Int8, 3, 1400000 + 1}}
+			giants := []giant{{dyn.Float32, dyn.Float32, 2, 1<<20 + 1000}, {dyn.Int16, dyn.Float64, 2, 1<<20 + 1000}, {dyn.Int8, dyn.Int8, 3, 1400000 + 1},
+				{dyn.Int8, dyn.Int8, 1, 1<<24 + 5}, {dyn.Int8, dyn.Int16, 2, 1<<23 + 3}} // more than 2^24 samples
 			if !c.Quick() {
 				giants = append(giants, giant{dyn.Float64, dyn.Float64, 2, 1<<21 + 77}, giant{dyn.Uint8, dyn.Int32, 3, 1<<21 + 5}, giant{dyn.Int32, dyn.Int32, 1, 1<<22 + 9})
 			}
